@@ -273,3 +273,63 @@ def governing_relations(an, r, bb):
 
 def in_cycle(an, bb, kinds=('normal',)):
     return bb in an.reach_after(bb, kinds)
+
+
+# --------------------------------------------------------------------------
+# generic comparison extraction
+
+_NEG = {'Le': 'Gt', 'Lt': 'Ge', 'Ge': 'Lt', 'Gt': 'Le', 'Eq': 'Ne', 'Ne': 'Eq'}
+_SWAP = {'Le': 'Ge', 'Lt': 'Gt', 'Ge': 'Le', 'Gt': 'Lt', 'Eq': 'Eq', 'Ne': 'Ne'}
+
+
+def branch_condition(an, switch_blk, arm_label):
+    """comparison that holds on `arm_label` of a bool switch: (op, lhs Operand, rhs Operand, cmp_bb) or None"""
+    t = switch_blk.term
+    if t.kind != 'switch' or t.j.get('dty') != 'bool' or arm_label not in ('true', 'false'):
+        return None
+    neg = (arm_label == 'false')
+    op = t.discr
+    for _ in range(12):
+        if op.kind == 'const' or op.place.proj:
+            return None
+        d = an.single_def(op.place.local)
+        if d is None or d[0] != 'stmt':
+            return None
+        rv = d[3].rv
+        if rv.kind == 'use':
+            op = rv.ops[0]; continue
+        if rv.kind == 'un' and rv.binop == 'Not':
+            neg = not neg; op = rv.ops[0]; continue
+        if rv.kind == 'bin' and rv.binop in _NEG:
+            o = rv.binop
+            if neg:
+                o = _NEG[o]
+            return (o, rv.ops[0], rv.ops[1], d[1])
+        return None
+    return None
+
+
+def governing_conditions(an, bb):
+    """[(op, lhs, rhs, switch_bb)] comparisons known to hold when bb executes (dominating one-armed switches)"""
+    out = []
+    doms = an.doms(('normal',)).get(bb) or ()
+    for d in doms:
+        blk = an.b.blocks[d]
+        if blk.term.kind != 'switch' or blk.term.j.get('dty') != 'bool':
+            continue
+        reach_by = []
+        for lab, tgt in blk.term.switch_arms():
+            if tgt == bb or bb in an.reach([tgt], ('normal',), avoid=[d]):
+                reach_by.append(lab)
+        if len(reach_by) == 1:
+            c = branch_condition(an, blk, reach_by[0])
+            if c:
+                out.append((c[0], c[1], c[2], d))
+    return out
+
+
+def implies_ge(op, a_is_lhs):
+    """does `lhs op rhs` imply a >= b, where a is lhs (a_is_lhs) or rhs?"""
+    if a_is_lhs:
+        return op in ('Ge', 'Gt', 'Eq')
+    return op in ('Le', 'Lt', 'Eq')
